@@ -40,7 +40,7 @@ func init() {
 		Level: "model_checking",
 		Rule: "BFS over canonical world states reached by chains install(values) -> (upgrade x {default,reset,reuse,reset-then-reuse} x value trees {none,{a:1},{a:null},{a:{x:1}},{b:s},{a:{y:2}}[,{a:{x:null}}]} " +
 			"x charts (per plan: the version after the deployed one | same and next | all of v1..v3; defaults of a,b,c differ between versions, a changes type) | rollback to every stored revision)*, " +
-			"fault-free, memory and secrets drivers; every transition is the real action on a clone of the state; the reference (overlay / effective values / defaults in force) " +
+			"at most one failing upgrade per chain (reduced alphabet, one injected fault) so that newest != deployed, otherwise fault-free; memory and secrets drivers; every transition is the real action on a clone of the state; the reference (overlay / effective values / defaults in force) " +
 			"is evaluated on every transition against Release.Config of every stored revision, the probe document in Release.Manifest and the probe ConfigMap in the simulated cluster; " +
 			"distinct = canonical (state, step) pairs; non-trivial = the step succeeded and created a revision",
 		Run:    run,
@@ -53,14 +53,16 @@ func init() {
 			return 3600
 		},
 		Assumptions: []string{
-			"fault-free chains only (the statement is about successful steps); simulated API server, scripted waiter",
+			"the statement is about successful steps: chains are fault-free except for at most one failing upgrade per chain (one injected cluster-side fault: first mutating request for a release resource rejected, else readiness wait failed), which only serves to make the newest revision differ from the deployed one; the failing step's own values are not judged; simulated API server, scripted waiter",
+			"the currently deployed revision is the revision with status deployed (= the last step that succeeded); rollback targets include failed revisions",
 			"null in new values is a value: overlay(old,new)[k]=new[k] (maps on both sides overlaid recursively); rendered values are compared with null-valued keys dropped on both sides",
 			"rendered values of a revision are required to equal effective(chart defaults in force, Config recorded for that revision); defaults in force follow the path: reuse-values keeps those of the deployed revision, other upgrades take the new chart's, rollback takes the target's",
 			"states that follow a violating transition are not expanded (consequences are not separate findings)",
 			"charts have no subcharts; values trees are built from keys a, b (user) and a, b, c (defaults) with scalars, maps of depth 1 and null",
 		},
 		RequiredFloors: []string{"overlay-both-contribute", "overlay-nested-merge", "carry-forward", "default-replaced", "reset-drops-old", "defaults-stay-old", "defaults-switch-new",
-			"rollback-restores-different", "null-recorded", "type-scalar-to-map", "type-map-to-scalar", "secrets-json-roundtrip", "rollback-to-reuse-revision", "chain-reuse-reuse"},
+			"rollback-restores-different", "null-recorded", "type-scalar-to-map", "type-map-to-scalar", "secrets-json-roundtrip", "rollback-to-reuse-revision", "chain-reuse-reuse",
+			"failed-upgrade-recorded:reject", "failed-upgrade-recorded:wait-fail", "carry-from-deployed-not-latest", "defaults-from-deployed-not-latest", "rollback-to-failed-revision"},
 	})
 }
 
@@ -157,6 +159,8 @@ type plan struct {
 	Inits   []string
 	Vals    []namedVals
 	Charts  string // "next" | "same,next" | "all"
+	// Fail: every chain may contain at most one failing upgrade (see failingStep).
+	Fail bool
 }
 
 var (
@@ -168,15 +172,15 @@ func plans(tier string) []plan {
 	vals7 := append(append([]namedVals{}, stepValues...), stepValuesThorough...)
 	if tier == "thorough" {
 		return []plan{
-			{"mem-len3-allcharts", []string{"memory"}, 3, initsQuick, vals7, "all"},
-			{"mem-len4-nextchart", []string{"memory"}, 4, initsThorough, stepValues, "next"},
-			{"sec-len3-same+next", []string{"secrets"}, 3, initsQuick, stepValues, "same,next"},
-			{"sec-len4-nextchart", []string{"secrets"}, 4, []string{"i-a5-bu", "i-amap"}, stepValues, "next"},
+			{"mem-len3-allcharts", []string{"memory"}, 3, initsQuick, vals7, "all", true},
+			{"mem-len4-nextchart", []string{"memory"}, 4, initsThorough, stepValues, "next", true},
+			{"sec-len3-same+next", []string{"secrets"}, 3, initsQuick, stepValues, "same,next", true},
+			{"sec-len4-nextchart", []string{"secrets"}, 4, []string{"i-a5-bu", "i-amap"}, stepValues, "next", false},
 		}
 	}
 	return []plan{
-		{"mem-len3-same+next", []string{"memory"}, 3, initsQuick, stepValues, "same,next"},
-		{"sec-len3-nextchart", []string{"secrets"}, 3, initsQuick, stepValues, "next"},
+		{"mem-len3-same+next", []string{"memory"}, 3, initsQuick, stepValues, "same,next", true},
+		{"sec-len3-nextchart", []string{"secrets"}, 3, initsQuick, stepValues, "next", true},
 	}
 }
 
@@ -212,9 +216,46 @@ func replayConfig(check func(*core.Ctx, *opspace.Transition)) *opspace.Config {
 	return &opspace.Config{Property: prop, MakeInit: makeInit, Check: check}
 }
 
+// failingStep: the upgrades that are also executed with one injected
+// cluster-side fault, so that the new revision is recorded failed and the old
+// one stays deployed: default mode with {a:1} or {b:s} and reuse-values with
+// {a:1}, always with the chart version after the deployed one (the failed
+// revision then differs from the deployed one in recorded values, chart and,
+// except for reuse-values, defaults).
+func failingStep(op hx.Op, deployedChart string) bool {
+	if op.Kind != "upgrade" || op.Chart == nil || op.Chart.Version != nextChart(deployedChart) {
+		return false
+	}
+	switch modeOf(op) + " " + valuesName(op.Values) {
+	case "default {a:1}", "default {b:s}", "reuse {a:1}":
+		return true
+	}
+	return false
+}
+
+// pickFault chooses, from the calls of the fault-free run of a step, the call
+// that makes the step fail: the first mutating request for a release resource
+// is rejected; when the upgrade changes nothing in the cluster (no such
+// request) the readiness wait fails instead.
+func pickFault(calls []sim.Call) *sim.Fault {
+	for _, c := range calls {
+		if c.Class == "cluster" && c.Mutating {
+			return &sim.Fault{Label: c.Label, Occurrence: c.Occurrence, Kind: "reject"}
+		}
+	}
+	for _, c := range calls {
+		if c.Class == "wait" {
+			return &sim.Fault{Label: c.Label, Occurrence: c.Occurrence, Kind: "wait-fail"}
+		}
+	}
+	return nil
+}
+
 func config(p plan, tier string) *opspace.Config {
 	lastBad := false
 	perKey := map[string]int{}
+	curDepChart := "1"  // chart version of the deployed revision of the state being expanded
+	var want *sim.Fault // the fault chosen for the step being expanded
 	cfg := &opspace.Config{
 		Property: prop,
 		Drivers:  p.Drivers,
@@ -238,6 +279,7 @@ func config(p plan, tier string) *opspace.Config {
 			if dep != nil && dep.Chart != nil && dep.Chart.Metadata != nil {
 				depChart = dep.Chart.Metadata.Version
 			}
+			curDepChart = depChart
 			// simplest first: no values, then one key
 			for _, v := range p.Vals {
 				for _, ch := range p.charts(depChart) {
@@ -253,6 +295,10 @@ func config(p plan, tier string) *opspace.Config {
 		},
 		MaxDepth: p.Depth,
 		Check: func(c *core.Ctx, t *opspace.Transition) {
+			if t.Step.Fault == nil {
+				// opspace runs a step fault-free first and then asks FaultKinds for every call of that run
+				want = pickFault(t.Res.Calls)
+			}
 			v := evaluate(t)
 			lastBad = !v.Continue
 			apply(c, t, v, tier, perKey)
@@ -273,6 +319,17 @@ func config(p plan, tier string) *opspace.Config {
 			}
 			return sb.String()
 		},
+	}
+	if p.Fail {
+		cfg.MaxFaulty = 1
+		// a failing last step has no successor whose carried values could be checked
+		cfg.FaultAt = func(depth int, _ []opspace.Step) bool { return depth < p.Depth-1 }
+		cfg.FaultKinds = func(_ string, op hx.Op, call sim.Call) []string {
+			if want == nil || !failingStep(op, curDepChart) || call.Label != want.Label || call.Occurrence != want.Occurrence {
+				return nil
+			}
+			return []string{want.Kind}
+		}
 	}
 	return cfg
 }
@@ -303,8 +360,9 @@ func run(c *core.Ctx) {
 		for _, v := range p.Vals {
 			vn = append(vn, v.Name)
 		}
-		c.Bound("plan:"+p.Name, fmt.Sprintf("drivers=%s chain_length<=%d installs=%s step_values=[%s] modes=%s charts_per_upgrade=%s rollback=every-stored-revision",
-			strings.Join(p.Drivers, ","), p.Depth, strings.Join(p.Inits, ","), strings.Join(vn, " "), strings.Join(modes, ","), p.Charts))
+		c.Bound("plan:"+p.Name, fmt.Sprintf("drivers=%s chain_length<=%d installs=%s step_values=[%s] modes=%s charts_per_upgrade=%s rollback=every-stored-revision(also failed ones) failing_upgrades=%s",
+			strings.Join(p.Drivers, ","), p.Depth, strings.Join(p.Inits, ","), strings.Join(vn, " "), strings.Join(modes, ","), p.Charts,
+			map[bool]string{true: "at most one per chain, at every position but the last: default{a:1} | default{b:s} | reuse{a:1}, next chart, first mutating cluster request rejected (else readiness wait failed)", false: "none"}[p.Fail]))
 		config(p, c.Tier).Run(c)
 	}
 }
@@ -427,6 +485,21 @@ func effective(defs, user map[string]any) map[string]any {
 	return out
 }
 
+// sameOutside: a and b agree on every top-level key that user does not set.
+func sameOutside(a, b, user map[string]any) bool {
+	for _, m := range []map[string]any{a, b} {
+		for k := range m {
+			if _, set := user[k]; set {
+				continue
+			}
+			if canon(a[k]) != canon(b[k]) {
+				return false
+			}
+		}
+	}
+	return true
+}
+
 func dropNulls(v any) any {
 	m, ok := v.(map[string]any)
 	if !ok {
@@ -443,19 +516,24 @@ func dropNulls(v any) any {
 }
 
 // refDefaults maps revision -> chart defaults in force, from the path alone
-// (every step on an expanded path succeeded, so step i created revision i+2
-// and the deployed revision before it is i+1).
+// (every step, failing or not, creates a revision: step i created revision
+// i+2; a step with an injected fault failed and left the deployed revision
+// where it was).
 func refDefaults(init string, path []opspace.Step) map[int]map[string]any {
 	ds := map[int]map[string]any{1: normMap(defaults[installs[init].Chart])}
+	dep := 1 // the deployed revision = the revision of the last step that succeeded
 	for i, st := range path {
 		n := i + 2
 		switch {
 		case st.Op.Kind == "rollback":
 			ds[n] = ds[st.Op.Version]
 		case st.Op.ReuseValues && !st.Op.ResetValues:
-			ds[n] = ds[n-1]
+			ds[n] = ds[dep]
 		default:
 			ds[n] = normMap(st.Op.Chart.Values)
+		}
+		if st.Fault == nil {
+			dep = n
 		}
 	}
 	return ds
@@ -600,6 +678,25 @@ func evaluate(t *opspace.Transition) (v verdict) {
 		v.NotExh = "no deployed revision before " + t.Step.String()
 		return v
 	}
+	if t.Step.Fault != nil {
+		// the failing upgrade: it must leave a failed revision and the deployed one where it was (C01/C03 decide
+		// that; here it is only the precondition for the steps that follow); its own values are not judged
+		if !res.Failed || len(post) != len(pre)+1 || post[len(post)-1].Version != t.Depth+1 ||
+			post[len(post)-1].Info.Status != rspb.StatusFailed || deployed(post) == nil || deployed(post).Version != dep.Version {
+			v.Outcome = mode + ":failing-step-unexpected"
+			v.NotExh = fmt.Sprintf("upgrade with %s did not leave (deployed, failed): err=%q ledger=%s; not continued", t.Step.Fault, res.Err, hx.StatusVector(post))
+			return v
+		}
+		for _, r := range pre {
+			if pr := find(post, r.Version); pr != nil && canon(normMap(pr.Config)) != canon(normMap(r.Config)) {
+				violate("stored-config-changed", "failing-upgrade", fmt.Sprintf("user values of stored revision %d changed from %s to %s", r.Version, canon(normMap(r.Config)), canon(normMap(pr.Config))))
+			}
+		}
+		v.Counted, v.Continue = true, len(v.Findings) == 0
+		v.Outcome = mode + ":failed-step:" + t.Step.Fault.Kind
+		v.Floors = append(v.Floors, "failed-upgrade-recorded:"+t.Step.Fault.Kind)
+		return v
+	}
 	if res.Failed {
 		// a fault-free step with valid input is expected to succeed; the property speaks about successful steps only
 		v.Outcome = mode + ":failed:" + res.ErrClass()
@@ -613,6 +710,11 @@ func evaluate(t *opspace.Transition) (v verdict) {
 	}
 	nr := post[len(post)-1]
 	v.Counted = true
+	// the newest revision when it is not the deployed one (a failed upgrade lies between)
+	var latest *rspb.Release
+	if l := pre[len(pre)-1]; l.Version != dep.Version {
+		latest = l
+	}
 
 	depCfg := normMap(dep.Config)
 	nw := normMap(op.Values)
@@ -637,7 +739,12 @@ func evaluate(t *opspace.Transition) (v verdict) {
 
 	// K1: the recorded user values of the new revision
 	if canon(got) != canon(want) {
-		violate("config", shape, fmt.Sprintf("revision %d records user values %s, want %s (deployed revision %d had %s, new values %s)",
+		clause := "config"
+		if latest != nil && mode != "rollback" && canon(got) == canon(refConfig(mode, normMap(latest.Config), nw, nil)) {
+			// diagnosis: the result is what the reference gives when it starts from the newest revision
+			clause = "config-from-latest-revision"
+		}
+		violate(clause, shape, fmt.Sprintf("revision %d records user values %s, want %s (deployed revision %d had %s, new values %s)",
 			nr.Version, canon(got), canon(want), dep.Version, canon(depCfg), canon(nw)))
 	}
 	// K2: recorded values of the existing revisions are not touched
@@ -655,7 +762,12 @@ func evaluate(t *opspace.Transition) (v verdict) {
 	wantE := canon(dropNulls(effective(dn, got)))
 	pv, why := probeOfManifest(nr.Manifest)
 	if why != "" || canon(dropNulls(pv)) != wantE {
-		violate("render", shape, fmt.Sprintf("revision %d renders values %s%s, want %s = defaults in force %s overridden by its recorded user values %s (deployed revision %d had %s, new values %s)",
+		clause := "render"
+		if latest != nil && mode == "reuse" && canon(ds[latest.Version]) != canon(dn) && sameOutside(pv, effective(ds[latest.Version], got), got) {
+			// diagnosis: for every key the user values do not set, the rendered value is the default of the newest revision
+			clause = "render-defaults-of-latest-revision"
+		}
+		violate(clause, shape, fmt.Sprintf("revision %d renders values %s%s, want %s = defaults in force %s overridden by its recorded user values %s (deployed revision %d had %s, new values %s)",
 			nr.Version, canon(pv), why, wantE, canon(dn), canon(got), dep.Version, canon(depCfg), canon(nw)))
 	} else if cv, why := probeOfCluster(t.Post); why != "" || canon(dropNulls(cv)) != wantE {
 		violate("cluster-render", shape, fmt.Sprintf("probe in the cluster after revision %d has values %s%s, want %s", nr.Version, canon(cv), why, wantE))
@@ -736,6 +848,20 @@ func evaluate(t *opspace.Transition) (v verdict) {
 	}
 	if mode != "reuse" && mode != "rollback" && dclass == "defaults-new" {
 		floor("defaults-switch-new")
+	}
+	if latest != nil {
+		carries := mode == "reuse" || mode == "reset-then-reuse" || (mode == "default" && len(nw) == 0)
+		if carries && canon(refConfig(mode, normMap(latest.Config), nw, nil)) != canon(want) {
+			floor("carry-from-deployed-not-latest")
+		}
+		if mode == "reuse" && canon(ds[latest.Version]) != canon(dn) {
+			floor("defaults-from-deployed-not-latest")
+		}
+		if mode == "rollback" {
+			if tgt := find(pre, op.Version); tgt != nil && tgt.Info.Status == rspb.StatusFailed {
+				floor("rollback-to-failed-revision")
+			}
+		}
 	}
 	if kindOf(want, "a") == "null" {
 		floor("null-recorded")
